@@ -71,9 +71,16 @@ def compare(sc, m, res):
                                                                      scale)
     ap = None if kn.get('models_omitted') else FW.scaled_model_params(kn['accel_model'],
                                                                      scale)
-    xs, Ps, innov, gl, al = refkf.reference_estimate(
-        nominal, computed, sig, gp, ap, m_ref['measurements'], inc, grid,
-        [(a, b, d) for a, b, c, d in assoc], wa)
+    try:
+        xs, Ps, innov, gl, al = refkf.reference_estimate(
+            nominal, computed, sig, gp, ap, m_ref['measurements'], inc, grid,
+            [(a, b, d) for a, b, c, d in assoc], wa)
+    except refkf.ModelUnavailable as e:
+        return [V('model-unavailable',
+                  f"{e.args[0]}.compute_matrices answers None (\"not available\") for the "
+                  f"sample stamped {e.args[1]!r}, which is in its table - the measurement set "
+                  f"the estimator is defined on is not the one that was supplied",
+                  'model-unavailable')], {}
     model = em.InsErrorModel(wa)
     ni = model.n_states
     nom_g = nominal.loc[grid]
